@@ -121,6 +121,8 @@ func checkC07(c *Ctx) {
 	}
 	c.Rule("R7.7", "logging through an encoder never modifies it: EncodeEntry/Clone/writeContext only read the shared receiver", 6)
 	c9EncoderPurity(c, "R7.7")
+	c.Rule("R7.8", "namespaces nest per object: AppendObject saves, zeroes, closes and restores the open-namespace counter, so a nested object never closes the logger's own namespace", 5)
+	c1Namespace(c, "R7.8")
 	c7Clone(c)
 	c7Wrappers(c)
 	c7Names(c)
